@@ -8,4 +8,5 @@ import (
 // mailbox / mailbox-facts: Layer 1 (lost wake-ups, duplication, FIFO). actorsys: Layer 2 (dead-letter
 // routing of terminating / terminated / unknown receivers, drain of a suspended mailbox on termination)
 // compared step by step with the model. deadletters: end to end on a real system (deadletters.go).
-func init() { mbx.Register(); mbx.RegisterFacts(); asys.Register() }
+// dispatchers: a dispatcher that drops or doubles a mailbox run strands or duplicates every message behind it.
+func init() { mbx.Register(); mbx.RegisterFacts(); mbx.RegisterDispatch(); asys.Register() }
